@@ -417,9 +417,19 @@ impl ZipOffsetBlobStore {
         let mut store = Self::with_config(config)?;
 
         // Read content data with SIMD optimization for large content
-        store.content.reserve(header.content_bytes as usize)?;
-        let mut content_bytes = vec![0u8; header.content_bytes as usize];
-        reader.read_exact(&mut content_bytes)?;
+        // The declared size is untrusted until that many bytes have actually been read:
+        // never reserve from the header field alone.
+        let mut content_bytes = Vec::new();
+        reader
+            .by_ref()
+            .take(header.content_bytes)
+            .read_to_end(&mut content_bytes)?;
+        if content_bytes.len() as u64 != header.content_bytes {
+            return Err(ZiporaError::invalid_data(
+                "content section is shorter than the header declares",
+            ));
+        }
+        store.content.reserve(content_bytes.len())?;
         
         // Use SIMD-optimized extend for large content
         if store.should_use_simd(content_bytes.len()) {
